@@ -479,3 +479,317 @@ Proof.
       (split; [reflexivity|]); (split; [reflexivity|]); intros _;
       cbn [val_matches spec_value]; auto.
 Qed.
+
+(* ------------------------------------------------------------------------------------------------ *)
+(* 4. the regenerated field tables against the layout tables                                          *)
+
+Lemma field_errors_cons : forall f fr s sr off, field_errors (f :: fr) (s :: sr) off = [] ->
+  f_name f = s_name s /\ f_width f = s_width s /\ s_off s = off /\ (0 < f_width f)%nat /\
+  sig_ok (s_kind s) f = true /\ field_errors fr sr (off + f_width f) = [].
+Proof.
+  intros f fr s sr off H. cbn [field_errors] in H.
+  destruct (String.eqb (f_name f) (s_name s)) eqn:E1; [|discriminate].
+  destruct (Nat.eqb (f_width f) (s_width s)) eqn:E2; [|discriminate].
+  destruct (Nat.eqb (s_off s) off) eqn:E3; [|discriminate].
+  destruct (Nat.ltb 0 (f_width f)) eqn:E4; [|discriminate].
+  destruct (sig_ok (s_kind s) f) eqn:E5; [|discriminate].
+  cbn [List.app] in H.
+  apply String.eqb_eq in E1. apply Nat.eqb_eq in E2, E3. apply Nat.ltb_lt in E4. auto 10.
+Qed.
+
+Lemma field_errors_length : forall fs sfs off, field_errors fs sfs off = [] -> length fs = length sfs.
+Proof.
+  induction fs as [|f fr IH]; intros [|s sr] off H; try reflexivity; try discriminate.
+  apply field_errors_cons in H as (_ & _ & _ & _ & _ & H). cbn [List.length]. f_equal. eauto.
+Qed.
+
+Lemma field_errors_names : forall fs sfs off, field_errors fs sfs off = [] -> map f_name fs = map s_name sfs.
+Proof.
+  induction fs as [|f fr IH]; intros [|s sr] off H; try reflexivity; try discriminate.
+  apply field_errors_cons in H as (Hn & _ & _ & _ & _ & H). cbn [map]. f_equal; eauto.
+Qed.
+
+Lemma field_errors_nth : forall fs sfs off i s, field_errors fs sfs off = [] -> nth_error sfs i = Some s ->
+  exists f, nth_error fs i = Some f /\ f_width f = s_width s /\ (0 < f_width f)%nat /\ sig_ok (s_kind s) f = true /\
+            forall b, nth_error (dec_all fs b off) i = Some (dec1 f b (s_off s)).
+Proof.
+  induction fs as [|f fr IH]; intros [|s0 sr] off i s H Hn; try discriminate; try (destruct i; discriminate).
+  apply field_errors_cons in H as (_ & Hw & Ho & Hp & Hs & H). destruct i as [|i].
+  - injection Hn as <-. exists f. subst off. repeat split; auto.
+  - cbn [nth_error] in Hn. destruct (IH _ _ _ _ H Hn) as (f' & Hf' & ? & ? & ? & Hd).
+    exists f'. repeat split; auto.
+Qed.
+
+Lemma layout_ok_inv : forall c v, layout_ok c v = true ->
+  class_name c = variant_class v /\ total_width (spec_layout v) = nominal v /\
+  field_errors (fields_of c) (spec_layout v) 0 = [].
+Proof.
+  intros c v H. unfold layout_ok, layout_errors in H.
+  destruct (String.eqb (class_name c) (variant_class v)) eqn:E1; [|discriminate].
+  destruct (Nat.eqb (total_width (spec_layout v)) (nominal v)) eqn:E2; [|discriminate].
+  cbn [List.app] in H. apply String.eqb_eq in E1. apply Nat.eqb_eq in E2.
+  destruct (field_errors (fields_of c) (spec_layout v) 0); [auto|discriminate].
+Qed.
+
+(* One lemma per layout variant, so that a changed width / sign flag / converter / field order in pyais/messages.py is
+   reported under the name of the variant, with the complaint of the checker in the error message
+   (e.g. Unable to unify "[]" with "["lon: signature (type, sign or converter)"]"). *)
+Ltac table_check := vm_compute; reflexivity.
+Lemma tables_match_spec_V1 : layout_errors (cls_of V1) V1 = []. Proof. table_check. Qed.
+Lemma tables_match_spec_V2 : layout_errors (cls_of V2) V2 = []. Proof. table_check. Qed.
+Lemma tables_match_spec_V3 : layout_errors (cls_of V3) V3 = []. Proof. table_check. Qed.
+Lemma tables_match_spec_V4 : layout_errors (cls_of V4) V4 = []. Proof. table_check. Qed.
+Lemma tables_match_spec_V5 : layout_errors (cls_of V5) V5 = []. Proof. table_check. Qed.
+Lemma tables_match_spec_V6 : layout_errors (cls_of V6) V6 = []. Proof. table_check. Qed.
+Lemma tables_match_spec_V7 : layout_errors (cls_of V7) V7 = []. Proof. table_check. Qed.
+Lemma tables_match_spec_V8 : layout_errors (cls_of V8) V8 = []. Proof. table_check. Qed.
+Lemma tables_match_spec_V9 : layout_errors (cls_of V9) V9 = []. Proof. table_check. Qed.
+Lemma tables_match_spec_V10 : layout_errors (cls_of V10) V10 = []. Proof. table_check. Qed.
+Lemma tables_match_spec_V11 : layout_errors (cls_of V11) V11 = []. Proof. table_check. Qed.
+Lemma tables_match_spec_V12 : layout_errors (cls_of V12) V12 = []. Proof. table_check. Qed.
+Lemma tables_match_spec_V13 : layout_errors (cls_of V13) V13 = []. Proof. table_check. Qed.
+Lemma tables_match_spec_V14 : layout_errors (cls_of V14) V14 = []. Proof. table_check. Qed.
+Lemma tables_match_spec_V15 : layout_errors (cls_of V15) V15 = []. Proof. table_check. Qed.
+Lemma tables_match_spec_V16 : layout_errors (cls_of V16) V16 = []. Proof. table_check. Qed.
+Lemma tables_match_spec_V17 : layout_errors (cls_of V17) V17 = []. Proof. table_check. Qed.
+Lemma tables_match_spec_V18 : layout_errors (cls_of V18) V18 = []. Proof. table_check. Qed.
+Lemma tables_match_spec_V19 : layout_errors (cls_of V19) V19 = []. Proof. table_check. Qed.
+Lemma tables_match_spec_V20 : layout_errors (cls_of V20) V20 = []. Proof. table_check. Qed.
+Lemma tables_match_spec_V21 : layout_errors (cls_of V21) V21 = []. Proof. table_check. Qed.
+Lemma tables_match_spec_V22Addressed : layout_errors (cls_of V22Addressed) V22Addressed = []. Proof. table_check. Qed.
+Lemma tables_match_spec_V22Broadcast : layout_errors (cls_of V22Broadcast) V22Broadcast = []. Proof. table_check. Qed.
+Lemma tables_match_spec_V23 : layout_errors (cls_of V23) V23 = []. Proof. table_check. Qed.
+Lemma tables_match_spec_V24A : layout_errors (cls_of V24A) V24A = []. Proof. table_check. Qed.
+Lemma tables_match_spec_V24B : layout_errors (cls_of V24B) V24B = []. Proof. table_check. Qed.
+Lemma tables_match_spec_V25AddressedStructured :
+  layout_errors (cls_of V25AddressedStructured) V25AddressedStructured = []. Proof. table_check. Qed.
+Lemma tables_match_spec_V25BroadcastStructured :
+  layout_errors (cls_of V25BroadcastStructured) V25BroadcastStructured = []. Proof. table_check. Qed.
+Lemma tables_match_spec_V25AddressedUnstructured :
+  layout_errors (cls_of V25AddressedUnstructured) V25AddressedUnstructured = []. Proof. table_check. Qed.
+Lemma tables_match_spec_V25BroadcastUnstructured :
+  layout_errors (cls_of V25BroadcastUnstructured) V25BroadcastUnstructured = []. Proof. table_check. Qed.
+Lemma tables_match_spec_V26AddressedStructured :
+  layout_errors (cls_of V26AddressedStructured) V26AddressedStructured = []. Proof. table_check. Qed.
+Lemma tables_match_spec_V26BroadcastStructured :
+  layout_errors (cls_of V26BroadcastStructured) V26BroadcastStructured = []. Proof. table_check. Qed.
+Lemma tables_match_spec_V26AddressedUnstructured :
+  layout_errors (cls_of V26AddressedUnstructured) V26AddressedUnstructured = []. Proof. table_check. Qed.
+Lemma tables_match_spec_V26BroadcastUnstructured :
+  layout_errors (cls_of V26BroadcastUnstructured) V26BroadcastUnstructured = []. Proof. table_check. Qed.
+Lemma tables_match_spec_V27 : layout_errors (cls_of V27) V27 = []. Proof. table_check. Qed.
+
+(* DESIGN 7/C01 tables_match_spec: for all 35 variants the regenerated field table has the names, widths, contiguous
+   offsets and signatures the layout demands, and the widths sum to the nominal length *)
+Theorem tables_match_spec : forall v, layout_ok (cls_of v) v = true.
+Proof.
+  intros v. unfold layout_ok.
+  destruct v;
+    first [ rewrite tables_match_spec_V1 | rewrite tables_match_spec_V2 | rewrite tables_match_spec_V3
+          | rewrite tables_match_spec_V4 | rewrite tables_match_spec_V5 | rewrite tables_match_spec_V6
+          | rewrite tables_match_spec_V7 | rewrite tables_match_spec_V8 | rewrite tables_match_spec_V9
+          | rewrite tables_match_spec_V10 | rewrite tables_match_spec_V11 | rewrite tables_match_spec_V12
+          | rewrite tables_match_spec_V13 | rewrite tables_match_spec_V14 | rewrite tables_match_spec_V15
+          | rewrite tables_match_spec_V16 | rewrite tables_match_spec_V17 | rewrite tables_match_spec_V18
+          | rewrite tables_match_spec_V19 | rewrite tables_match_spec_V20 | rewrite tables_match_spec_V21
+          | rewrite tables_match_spec_V22Addressed | rewrite tables_match_spec_V22Broadcast
+          | rewrite tables_match_spec_V23 | rewrite tables_match_spec_V24A | rewrite tables_match_spec_V24B
+          | rewrite tables_match_spec_V25AddressedStructured | rewrite tables_match_spec_V25BroadcastStructured
+          | rewrite tables_match_spec_V25AddressedUnstructured | rewrite tables_match_spec_V25BroadcastUnstructured
+          | rewrite tables_match_spec_V26AddressedStructured | rewrite tables_match_spec_V26BroadcastStructured
+          | rewrite tables_match_spec_V26AddressedUnstructured | rewrite tables_match_spec_V26BroadcastUnstructured
+          | rewrite tables_match_spec_V27 ]; reflexivity.
+Qed.
+
+(* ------------------------------------------------------------------------------------------------ *)
+(* 5. variant dispatch                                                                                 *)
+
+Lemma kb_get_sound : forall b kb i x, Forall (fun p => bit_at b (fst p) = snd p) kb -> kb_get kb i = Some x ->
+  bit_at b i = x.
+Proof.
+  induction kb as [|[j y] r IH]; intros i x HF H; [discriminate|].
+  inversion HF as [|? ? Hj Hr]; subst. cbn [kb_get] in H. destruct (Nat.eqb i j) eqn:E.
+  - apply Nat.eqb_eq in E. injection H as <-. subst. exact Hj.
+  - eauto.
+Qed.
+
+Lemma kb_get_lt : forall kb d i x, forallb (fun p => Nat.ltb (fst p) d) kb = true -> kb_get kb i = Some x -> (i < d)%nat.
+Proof.
+  induction kb as [|[j y] r IH]; intros d i x HF H; [discriminate|].
+  cbn [forallb fst] in HF. apply andb_true_iff in HF as [Hj Hr]. cbn [kb_get] in H. destruct (Nat.eqb i j) eqn:E.
+  - apply Nat.eqb_eq in E. apply Nat.ltb_lt in Hj. lia.
+  - eauto.
+Qed.
+
+Lemma kb_range_sound : forall b kb d w lo l,
+  Forall (fun p => bit_at b (fst p) = snd p) kb -> forallb (fun p => Nat.ltb (fst p) d) kb = true ->
+  kb_range kb lo w = Some l ->
+  l = map (fun i => nth i b false) (seq lo w) /\ ((0 < w)%nat -> (lo + w <= d)%nat).
+Proof.
+  induction w as [|w IH]; intros lo l HF Hd H.
+  - injection H as <-. split; [reflexivity|lia].
+  - cbn [kb_range] in H. destruct (kb_get kb lo) as [x|] eqn:Ex; [|discriminate].
+    destruct (kb_range kb (S lo) w) as [r|] eqn:Er; [|discriminate]. injection H as <-.
+    destruct (IH _ _ HF Hd Er) as [-> Hb]. pose proof (kb_get_lt _ _ _ _ Hd Ex).
+    split.
+    + cbn [seq map]. f_equal. symmetry. exact (kb_get_sound _ _ _ _ HF Ex).
+    + intros _. destruct w; lia.
+Qed.
+
+Lemma range_val_sound : forall b kb d lo hi z,
+  Forall (fun p => bit_at b (fst p) = snd p) kb -> forallb (fun p => Nat.ltb (fst p) d) kb = true ->
+  (d <= length b)%nat -> range_val kb lo hi = Some z -> get_int b lo hi false = z.
+Proof.
+  intros b kb d lo hi z HF Hd Hlen H. unfold range_val in H.
+  destruct (Nat.ltb lo hi) eqn:E; [|discriminate]. apply Nat.ltb_lt in E.
+  destruct (kb_range kb lo (hi - lo)) as [l|] eqn:Er; [|discriminate]. injection H as <-.
+  destruct (kb_range_sound _ _ _ _ _ _ HF Hd Er) as [-> Hb].
+  rewrite get_int_uval by lia. rewrite sub_nth by lia. reflexivity.
+Qed.
+
+Lemma tree_sel_sound : forall b kb d t r,
+  Forall (fun p => bit_at b (fst p) = snd p) kb -> forallb (fun p => Nat.ltb (fst p) d) kb = true ->
+  (d <= length b)%nat -> tree_sel t kb = Some r -> run_dtree t b = r.
+Proof.
+  intros b kb d t r HF Hd Hlen. revert r.
+  induction t as [c| |lo hi t1 IH1 t2 IH2|lo hi k t1 IH1 t2 IH2]; intros r H; cbn [tree_sel run_dtree] in *.
+  - congruence.
+  - congruence.
+  - destruct (range_val kb lo hi) as [z|] eqn:Ez; [|discriminate].
+    rewrite (range_val_sound _ _ _ _ _ _ HF Hd Hlen Ez). destruct (z =? 0); auto.
+  - destruct (range_val kb lo hi) as [z|] eqn:Ez; [|discriminate].
+    rewrite (range_val_sound _ _ _ _ _ _ HF Hd Hlen Ez). destruct (z =? k); auto.
+Qed.
+
+(* re-checked against the regenerated MSG_CLASS table and decision trees on every run, one lemma per variant *)
+Ltac dispatch_check := vm_compute; reflexivity.
+Lemma dispatch_table_V1 : dispatch_sel V1 = Some (cls_of V1). Proof. dispatch_check. Qed.
+Lemma dispatch_table_V2 : dispatch_sel V2 = Some (cls_of V2). Proof. dispatch_check. Qed.
+Lemma dispatch_table_V3 : dispatch_sel V3 = Some (cls_of V3). Proof. dispatch_check. Qed.
+Lemma dispatch_table_V4 : dispatch_sel V4 = Some (cls_of V4). Proof. dispatch_check. Qed.
+Lemma dispatch_table_V5 : dispatch_sel V5 = Some (cls_of V5). Proof. dispatch_check. Qed.
+Lemma dispatch_table_V6 : dispatch_sel V6 = Some (cls_of V6). Proof. dispatch_check. Qed.
+Lemma dispatch_table_V7 : dispatch_sel V7 = Some (cls_of V7). Proof. dispatch_check. Qed.
+Lemma dispatch_table_V8 : dispatch_sel V8 = Some (cls_of V8). Proof. dispatch_check. Qed.
+Lemma dispatch_table_V9 : dispatch_sel V9 = Some (cls_of V9). Proof. dispatch_check. Qed.
+Lemma dispatch_table_V10 : dispatch_sel V10 = Some (cls_of V10). Proof. dispatch_check. Qed.
+Lemma dispatch_table_V11 : dispatch_sel V11 = Some (cls_of V11). Proof. dispatch_check. Qed.
+Lemma dispatch_table_V12 : dispatch_sel V12 = Some (cls_of V12). Proof. dispatch_check. Qed.
+Lemma dispatch_table_V13 : dispatch_sel V13 = Some (cls_of V13). Proof. dispatch_check. Qed.
+Lemma dispatch_table_V14 : dispatch_sel V14 = Some (cls_of V14). Proof. dispatch_check. Qed.
+Lemma dispatch_table_V15 : dispatch_sel V15 = Some (cls_of V15). Proof. dispatch_check. Qed.
+Lemma dispatch_table_V16 : dispatch_sel V16 = Some (cls_of V16). Proof. dispatch_check. Qed.
+Lemma dispatch_table_V17 : dispatch_sel V17 = Some (cls_of V17). Proof. dispatch_check. Qed.
+Lemma dispatch_table_V18 : dispatch_sel V18 = Some (cls_of V18). Proof. dispatch_check. Qed.
+Lemma dispatch_table_V19 : dispatch_sel V19 = Some (cls_of V19). Proof. dispatch_check. Qed.
+Lemma dispatch_table_V20 : dispatch_sel V20 = Some (cls_of V20). Proof. dispatch_check. Qed.
+Lemma dispatch_table_V21 : dispatch_sel V21 = Some (cls_of V21). Proof. dispatch_check. Qed.
+Lemma dispatch_table_V22Addressed : dispatch_sel V22Addressed = Some (cls_of V22Addressed). Proof. dispatch_check. Qed.
+Lemma dispatch_table_V22Broadcast : dispatch_sel V22Broadcast = Some (cls_of V22Broadcast). Proof. dispatch_check. Qed.
+Lemma dispatch_table_V23 : dispatch_sel V23 = Some (cls_of V23). Proof. dispatch_check. Qed.
+Lemma dispatch_table_V24A : dispatch_sel V24A = Some (cls_of V24A). Proof. dispatch_check. Qed.
+Lemma dispatch_table_V24B : dispatch_sel V24B = Some (cls_of V24B). Proof. dispatch_check. Qed.
+Lemma dispatch_table_V25AddressedStructured :
+  dispatch_sel V25AddressedStructured = Some (cls_of V25AddressedStructured). Proof. dispatch_check. Qed.
+Lemma dispatch_table_V25BroadcastStructured :
+  dispatch_sel V25BroadcastStructured = Some (cls_of V25BroadcastStructured). Proof. dispatch_check. Qed.
+Lemma dispatch_table_V25AddressedUnstructured :
+  dispatch_sel V25AddressedUnstructured = Some (cls_of V25AddressedUnstructured). Proof. dispatch_check. Qed.
+Lemma dispatch_table_V25BroadcastUnstructured :
+  dispatch_sel V25BroadcastUnstructured = Some (cls_of V25BroadcastUnstructured). Proof. dispatch_check. Qed.
+Lemma dispatch_table_V26AddressedStructured :
+  dispatch_sel V26AddressedStructured = Some (cls_of V26AddressedStructured). Proof. dispatch_check. Qed.
+Lemma dispatch_table_V26BroadcastStructured :
+  dispatch_sel V26BroadcastStructured = Some (cls_of V26BroadcastStructured). Proof. dispatch_check. Qed.
+Lemma dispatch_table_V26AddressedUnstructured :
+  dispatch_sel V26AddressedUnstructured = Some (cls_of V26AddressedUnstructured). Proof. dispatch_check. Qed.
+Lemma dispatch_table_V26BroadcastUnstructured :
+  dispatch_sel V26BroadcastUnstructured = Some (cls_of V26BroadcastUnstructured). Proof. dispatch_check. Qed.
+Lemma dispatch_table_V27 : dispatch_sel V27 = Some (cls_of V27). Proof. dispatch_check. Qed.
+
+Lemma dispatch_tables_match_spec : forall v, dispatch_sel v = Some (cls_of v).
+Proof.
+  destruct v;
+    first [ exact dispatch_table_V1 | exact dispatch_table_V2 | exact dispatch_table_V3 | exact dispatch_table_V4
+          | exact dispatch_table_V5 | exact dispatch_table_V6 | exact dispatch_table_V7 | exact dispatch_table_V8
+          | exact dispatch_table_V9 | exact dispatch_table_V10 | exact dispatch_table_V11 | exact dispatch_table_V12
+          | exact dispatch_table_V13 | exact dispatch_table_V14 | exact dispatch_table_V15 | exact dispatch_table_V16
+          | exact dispatch_table_V17 | exact dispatch_table_V18 | exact dispatch_table_V19 | exact dispatch_table_V20
+          | exact dispatch_table_V21 | exact dispatch_table_V22Addressed | exact dispatch_table_V22Broadcast
+          | exact dispatch_table_V23 | exact dispatch_table_V24A | exact dispatch_table_V24B
+          | exact dispatch_table_V25AddressedStructured | exact dispatch_table_V25BroadcastStructured
+          | exact dispatch_table_V25AddressedUnstructured | exact dispatch_table_V25BroadcastUnstructured
+          | exact dispatch_table_V26AddressedStructured | exact dispatch_table_V26BroadcastStructured
+          | exact dispatch_table_V26AddressedUnstructured | exact dispatch_table_V26BroadcastUnstructured
+          | exact dispatch_table_V27 ].
+Qed.
+
+(* what spec_variant says about the bits, in the form the checker uses *)
+Lemma two_bits : forall b, (40 <= length b)%nat ->
+  uval (sub b 38 2) = 2 * b2z (bit_at b 38) + b2z (bit_at b 39).
+Proof.
+  intros b H. rewrite sub_nth by lia. cbn [seq map]. unfold bit_at.
+  destruct (nth 38 b false), (nth 39 b false); reflexivity.
+Qed.
+
+Lemma spec_variant_selects : forall b v, spec_variant b = Some v -> (disc_end v <= length b)%nat -> selects b v.
+Proof.
+  intros b v H Hlen. unfold selects. unfold spec_variant in H.
+  set (t := uval (sub b 0 6)) in *.
+  repeat match type of H with
+         | (if ?c then _ else _) = _ =>
+           let E := fresh "E" in
+           destruct c eqn:E;
+           [ apply Z.eqb_eq in E; clear - H E Hlen | clear E ]
+         end; try discriminate.
+  all: try (injection H as <-; split; [exact E|constructor]).
+  - (* 22 *) destruct (bit_at b 139) eqn:Eb; injection H as <-; (split; [exact E|]); repeat constructor; exact Eb.
+  - (* 24 *) destruct (uval (sub b 38 2)) as [|[p|p|]|p] eqn:Eu; try discriminate; injection H as <-;
+      cbn [disc_end] in Hlen; rewrite two_bits in Eu by lia;
+      (split; [exact E|]); destruct (bit_at b 38) eqn:Ea, (bit_at b 39) eqn:Es; cbn [b2z] in Eu; try discriminate;
+      repeat constructor; assumption.
+  - (* 25 *) destruct (bit_at b 38) eqn:Ea, (bit_at b 39) eqn:Es; injection H as <-; (split; [exact E|]);
+      repeat constructor; assumption.
+  - (* 26 *) destruct (bit_at b 38) eqn:Ea, (bit_at b 39) eqn:Es; injection H as <-; (split; [exact E|]);
+      repeat constructor; assumption.
+Qed.
+
+Lemma known_bits_before_disc_end : forall v, forallb (fun p => Nat.ltb (fst p) (disc_end v)) (known_bits v) = true.
+Proof. destruct v; reflexivity. Qed.
+
+(* DESIGN 7/C11 dispatch_prefix_stable: the discriminator bits are inside every prefix that C11 quantifies over *)
+Lemma selects_prefix : forall b v n, selects b v -> (Nat.max 6 (disc_end v) <= n)%nat -> selects (firstn n b) v.
+Proof.
+  intros b v n [Ht Hk] Hn. split.
+  - rewrite sub_firstn by lia. exact Ht.
+  - pose proof (known_bits_before_disc_end v) as Hd. revert Hk Hd.
+    induction (known_bits v) as [|[i x] r IH]; intros Hk Hd; constructor.
+    + inversion Hk; subst. cbn [forallb fst] in Hd. apply andb_true_iff in Hd as [Hi _]. apply Nat.ltb_lt in Hi.
+      cbn [fst snd] in *. unfold bit_at in *. rewrite nth_firstn_lt by lia. assumption.
+    + inversion Hk; subst. cbn [forallb] in Hd. apply andb_true_iff in Hd as [_ Hr]. auto.
+Qed.
+
+Lemma dispatch_of_selects : forall b v, selects b v -> (6 <= length b)%nat -> (disc_end v <= length b)%nat ->
+  exists dt ct, assoc_z (get_int b 0 6 false) msg_class_table = Some (dt, ct) /\ run_dtree dt b = Ok (cls_of v).
+Proof.
+  intros b v [Ht Hk] H6 Hd. rewrite get_int_uval by lia. change (6 - 0)%nat with 6%nat. rewrite Ht.
+  pose proof (dispatch_tables_match_spec v) as Hs. unfold dispatch_sel in Hs.
+  destruct (forallb (fun p => Nat.ltb (fst p) (disc_end v)) (known_bits v)) eqn:Ekb; [|discriminate].
+  destruct (assoc_z (type_id v) msg_class_table) as [[dt ct]|]; [|discriminate].
+  destruct (tree_sel dt (known_bits v)) as [[c|e]|] eqn:Et; try discriminate. injection Hs as ->.
+  exists dt, ct. split; [reflexivity|]. exact (tree_sel_sound _ _ _ _ _ Hk Ekb Hd Et).
+Qed.
+
+(* DESIGN 7/C01 dispatch_matches_spec: for every bit list that contains the discriminator, the class MSG_CLASS and the
+   dispatcher select is the class of the variant spec_variant selects *)
+Theorem dispatch_matches_spec : forall b v, spec_variant b = Some v -> (6 <= length b)%nat ->
+  (disc_end v <= length b)%nat ->
+  exists dt ct, assoc_z (get_int b 0 6 false) msg_class_table = Some (dt, ct) /\ run_dtree dt b = Ok (cls_of v).
+Proof. intros b v H H6 Hd. apply dispatch_of_selects; auto. apply spec_variant_selects; assumption. Qed.
+
+Lemma decode_bits_of_selects : forall b v vals, selects b v -> (6 <= length b)%nat -> (disc_end v <= length b)%nat ->
+  from_bitarray (cls_of v) b = Ok vals -> decode_bits b = Ok (cls_of v, vals).
+Proof.
+  intros b v vals Hs H6 Hd Hf. destruct (dispatch_of_selects b v Hs H6 Hd) as (dt & ct & Ha & Hr).
+  unfold decode_bits, decode_bits_as. rewrite Ha, Hr. cbn [bind]. rewrite Hf. reflexivity.
+Qed.
